@@ -133,6 +133,11 @@ def run_server_kbd(pos, payloads, strict, **kw):
     return run_server(pos, payloads, strict, auth='kbdint', **kw)
 
 
+def run_server_rekey(pos, payloads, strict, **kw):
+    """the same dialogue with a complete re-exchange (started by the peer) between login and the first channel"""
+    return run_server(pos, payloads, strict, rekey=True, **kw)
+
+
 def run_server(pos, payloads, strict, rekey=False, no_seq_reset=False, seed=0, auth='password'):
     env = {}
 
@@ -211,6 +216,7 @@ def run_server(pos, payloads, strict, rekey=False, no_seq_reset=False, seed=0, a
             'session_id_same': w.conn._session_id == rp.session_id if rp.session_id else None,
             'unimplemented': rp.types().count(R.MSG_UNIMPLEMENTED),
             'auth_replies': (rp.types().count(R.MSG_USERAUTH_FAILURE), rp.types().count(R.MSG_USERAUTH_SUCCESS), rp.types().count(60)),
+            'service_accepts': rp.types().count(6),
             'ref_error': obs.get('ref_error') or (str(w.proto.error) if w.proto.error else None),
             'loop_exc': [repr(c.get('exception') or c.get('message')) for c in w.loop.unretrieved()],
             'kex_done': rp.kex_done,
@@ -241,7 +247,7 @@ CLI_POSITIONS = ['pre-version', (20, 1), (31, 1), (21, 1), (6, 1), (51, 1), 'par
                  (91, 1), (99, 1), 'end']
 
 
-def run_client(pos, payloads, strict, no_seq_reset=False, seed=0):
+def run_client(pos, payloads, strict, no_seq_reset=False, seed=0, rekey=False):
     pwfut = {}
 
     def password():
@@ -281,6 +287,9 @@ def run_client(pos, payloads, strict, no_seq_reset=False, seed=0):
             pwfut['f'].set_result('pw')
         w.flush()
         waiter = w.copt.waiter
+        if rekey and waiter.done() and not waiter.cancelled() and waiter.exception() is None and not rp.closed:
+            rp.send_kexinit()
+            w.flush()
         if waiter.done() and not waiter.cancelled() and waiter.exception() is None:
             async def app():
                 r = await w.conn.run('cmd', encoding=None, check=False)
@@ -322,6 +331,8 @@ def run_client(pos, payloads, strict, no_seq_reset=False, seed=0):
             'auth_requests': [R.Reader(p, 1).string() and None or
                               _method(p) for t, p in rp.inbox if t == R.MSG_USERAUTH_REQUEST],
             'unimplemented': rp.types().count(R.MSG_UNIMPLEMENTED),
+            'service_requests': rp.types().count(5),
+            'kex_done': rp.kex_done,
             'ref_error': obs.get('ref_error') or (str(w.proto.error) if w.proto.error else None),
             'loop_exc': [repr(c.get('exception') or c.get('message')) for c in w.loop.unretrieved()],
             'injected': rp.injected or not isinstance(pos, (tuple, list)),
@@ -330,6 +341,10 @@ def run_client(pos, payloads, strict, no_seq_reset=False, seed=0):
     finally:
         w.close()
     return obs
+
+
+def run_client_rekey(pos, payloads, strict, **kw):
+    return run_client(pos, payloads, strict, rekey=True, **kw)
 
 
 def _method(p):
@@ -341,6 +356,7 @@ def _method(p):
 
 # ------------------------------------------------------------------ oracle
 INITIAL_KEX = {'pre-version', (20, 1), (30, 1), (31, 1), (21, 1)}
+REKEY_KEX = {(30, 2), (31, 2), (21, 2)}
 
 
 def legal(role_under_test, pos, t, strict):
@@ -360,6 +376,14 @@ def legal(role_under_test, pos, t, strict):
     # after first NEWKEYS
     if t in (2, 3, 4):
         return True
+    if pos in REKEY_KEX:
+        # inside a re-exchange: the exchange's own next message; everything else as outside the exchange, where
+        # the messages legal after login are hygiene-only (a peer may not send them between its KEXINIT and
+        # NEWKEYS, but like OpenSSH asyncssh does not police the peer's sending discipline)
+        if t == pos[0]:
+            return True
+        if t == 20 or 30 <= t <= 49:
+            return False
     if t == 20:
         return True                         # re-exchange may start at any time
     if 30 <= t <= 49:
@@ -443,10 +467,15 @@ def _diff(obs, base):
 
 
 # ------------------------------------------------------------------ workers
+def runner_for(role):
+    return {'server': run_server, 'server-kbd': run_server_kbd, 'server-rekey': run_server_rekey,
+            'client': run_client, 'client-rekey': run_client_rekey}[role]
+
+
 def worker(job):
     role, pos, strict, types = job
     acc = core.Acc()
-    runner = run_server if role == 'server' else run_server_kbd if role == 'server-kbd' else run_client
+    runner = runner_for(role)
     label_role, role = role, role.split('-')[0]
     base = runner(None, (), strict)
     if base['ended'] and role == 'server':
@@ -644,6 +673,14 @@ def main(tier, seed):
         for pos in [(50, 1), (61, 1), (90, 1), (98, 1), 'end']:
             for i in range(0, len(TYPES), 17):
                 jobs.append(('server-kbd', pos, strict, TYPES[i:i + 17]))
+        # the same dialogues with a complete re-exchange after login: inside it, and everything after it
+        # (what the first exchange armed -- the service request, the extension negotiation -- must not be
+        # armed again by a later one)
+        for role, poss in (('server-rekey', [(30, 2), (21, 2), (90, 1), (98, 1), 'end']),
+                           ('client-rekey', [(31, 2), (21, 2), (91, 1), (99, 1), 'end'])):
+            for pos in poss:
+                for i in range(0, len(TYPES), 17):
+                    jobs.append((role, pos, strict, TYPES[i:i + 17]))
     # determinism
     a = run_server((50, 1), (wellformed(90, 'client'),), True, seed=seed)
     b = run_server((50, 1), (wellformed(90, 'client'),), True, seed=seed)
@@ -697,7 +734,7 @@ def replay(rep):
         acc = seqreset_checks()
         print(json.dumps(acc.violations, indent=1, default=repr))
         return 1 if acc.violations else 0
-    runner = run_server if r['role'] == 'server' else run_server_kbd if r['role'] == 'server-kbd' else run_client
+    runner = runner_for(r['role'])
     sender = 'client' if r['role'].startswith('server') else 'server'
     pos = tuple(r['pos']) if isinstance(r['pos'], list) else r['pos']
     base = runner(None, (), r['strict'])
